@@ -256,7 +256,13 @@ impl Request {
 
         r.next_if(|b| *b==b' ').ok_or_else(Response::BadRequest)?;
         
-        self.path.init_with_request_bytes(r.read_while(|b| !matches!(b, b' ' | b'?')))?;
+        let path_bytes = r.read_while(|b| !matches!(b, b' ' | b'?'));
+        // `Path` presents the target as text (raw and percent-decoded):
+        // refuse here what its accessors could not present
+        if std::str::from_utf8(path_bytes).is_err() || ohkami_lib::percent_decode_utf8(path_bytes).is_err() {
+            return Err(Response::BadRequest())
+        }
+        self.path.init_with_request_bytes(path_bytes)?;
 
         if r.consume_oneof([" ", "?"]).ok_or_else(Response::BadRequest)? == 1 {
             self.query = QueryParams::new(r.read_while(|b| b != &b' '));
@@ -268,7 +274,12 @@ impl Request {
         while r.consume("\r\n").is_none() {
             let key_bytes = r.read_while(|b| b != &b':');
             r.consume(": ").ok_or_else(Response::BadRequest)?;
-            let value = CowSlice::Ref(Slice::from_bytes(r.read_while(|b| b != &b'\r')));
+            let value_bytes = r.read_while(|b| b != &b'\r');
+            // header names and values are handed out as `&str`
+            if std::str::from_utf8(key_bytes).is_err() || std::str::from_utf8(value_bytes).is_err() {
+                return Err(Response::BadRequest())
+            }
+            let value = CowSlice::Ref(Slice::from_bytes(value_bytes));
             r.consume("\r\n").ok_or_else(Response::BadRequest)?;
 
             if let Some(key) = RequestHeader::from_bytes(key_bytes) {
